@@ -129,6 +129,30 @@ def safe_ids(spec):
     return s
 
 
+def pre_edit(m, case):
+    """"Any model" includes models that were edited through the public API before they are written: on about a third of the cases (decided from
+    the content of the case, the case stream stays as it was) a member of a group is removed from the model first — by id, by the model's own
+    object, or by an equal copy from a copy of the model — or a gene is removed."""
+    import zlib
+    h = zlib.crc32(json.dumps(case["spec"], sort_keys=True, default=str).encode())
+    if h % 3 != 0:
+        return
+    how = ["id", "object", "foreign"][(h // 3) % 3]
+    try:
+        from cobra.util.solver import linear_reaction_coefficients
+        in_obj = {r.id for r in linear_reaction_coefficients(m)}           # the objective keeps its reactions (an empty objective is another matter)
+        grouped = [x for g in m.groups for x in g.members if isinstance(x, cobra.Reaction) and x.id not in in_obj]
+        rest = [r for r in m.reactions if r.id not in in_obj]
+        target = grouped[0] if grouped else (rest[-1] if len(rest) > 1 else None)
+        if target is not None:
+            arg = {"id": target.id, "object": target, "foreign": m.copy().reactions.get_by_id(target.id)}[how]
+            m.remove_reactions([arg])
+        if (h // 9) % 2 == 0 and len(m.genes) > 1:
+            cobra.manipulation.remove_genes(m, [m.genes[-1].id if how == "id" else m.genes[-1]], remove_reactions=False)
+    except Exception:
+        pass
+
+
 def check_case(case):
     spec, variant, frep = case["spec"], case["variant"], case["f_replace"]
     fails = []
@@ -140,6 +164,7 @@ def check_case(case):
             if case.get("config_bounds"):
                 conf.bounds = tuple(case["config_bounds"])
             m = richgen.build(spec)
+            pre_edit(m, case)
             d0 = sbml_view(richgen.rich_dump(m, bounds_digits=15))
             g0 = digits15(canon.glpk_dump(m))
             with tempfile.TemporaryDirectory(dir="/root") as td:
